@@ -165,6 +165,12 @@ def make_step(rng, ids: gen.Ids, existing: List[Dict[str, Any]], member_pool: Li
         cname, mname = rng.choice(targets)
         return {"decorate": {"id": ids.new("x"), "cls": cname, "member": mname, "role": rng.choice(("pre", "pre", "post")),
                              "via": rng.choice(("decorator", "add_to_checker"))}}
+    if existing and rng.random() < 0.12:
+        # add an invariant to an already created class afterwards (the decorator applied to the existing class object)
+        cname = rng.choice(existing)["name"]
+        inv = {"id": ids.new("j"), "check_on": rng.choice(CHECK_ONS), "err": "instance", "self": rng.random() < 0.8,
+               "form": rng.choice(("def", "lambda"))}
+        return {"decorate_inv": {"cls": cname, "inv": inv}}
     name = ids.new("K")
     for _ in range(8):
         nb = rng.choice((0, 1, 1, 1, 2)) if existing else 0
@@ -244,6 +250,24 @@ def decorate_source(d: Dict[str, Any]) -> str:
     return "\n".join(lines) + "\n"
 
 
+def decorate_inv_source(d: Dict[str, Any]) -> str:
+    """Source of a step that applies the invariant decorator to an existing class."""
+    out = []  # type: List[str]
+    prog.render_helpers(d["inv"], "inv", out)
+    text = prog.deco_text("inv", d["inv"])
+    assert text.startswith("@")
+    out.append("{}({})\n".format(text[1:], d["cls"]))
+    return "".join(out)
+
+
+def step_source(step: Dict[str, Any]) -> str:
+    return decorate_inv_source(step["decorate_inv"]) if "decorate_inv" in step else decorate_source(step["decorate"])
+
+
+def decoration_of(step: Dict[str, Any]) -> Optional[Dict[str, Any]]:
+    return step.get("decorate") or step.get("decorate_inv")
+
+
 def affected_by_decoration(d: Dict[str, Any], ent: "Entity", class_specs: List[Dict[str, Any]]) -> bool:
     """The decorated class itself and its subclasses legitimately change (the statement protects bases, siblings, unrelated)."""
     if not ent.is_class:
@@ -254,6 +278,9 @@ def affected_by_decoration(d: Dict[str, Any], ent: "Entity", class_specs: List[D
 
 def classify(hist: List[Dict[str, Any]], victim: Entity, culprit_step: Dict[str, Any], changed: str) -> str:
     """Mechanism key for a leak."""
+    if "decorate_inv" in culprit_step:
+        # mechanism: the invariant decorator finds the lists of a base through attribute look-up and appends to them
+        return "C17/invariant-added-afterwards-appended-to-the-lists-of-a-base"
     if "decorate" in culprit_step:
         # mechanism: the checker of an overriding member shares (precondition group) lists with the checker of the base member
         return "C17/contract-added-to-override-afterwards-leaks-into-base"
@@ -290,7 +317,12 @@ def run_history(w, hist_index: int) -> None:
     try:
         for step_no in range(n_steps):
             step = make_step(rng, ids, class_specs, member_pool)
-            if "decorate" in step:
+            if "decorate_inv" in step:
+                spec = None
+                name = "decorate_inv:" + step["decorate_inv"]["inv"]["id"]
+                w.count("decorations_afterwards")
+                w.count("invariants_added_afterwards")
+            elif "decorate" in step:
                 spec = None
                 name = "decorate:" + step["decorate"]["id"]
                 w.count("decorations_afterwards")
@@ -304,7 +336,7 @@ def run_history(w, hist_index: int) -> None:
                     continue
                 spec = {"funcs": [], "classes": [step]}
                 name = step["name"]
-            src = prog.render(spec)[len(prog.PRELUDE):] if spec is not None else decorate_source(step["decorate"])
+            src = prog.render(spec)[len(prog.PRELUDE):] if spec is not None else step_source(step)
             path = os.path.join(scratch, "hist_{}_{}_{}.py".format(os.getpid(), hist_index, step_no))
             with open(path, "w") as fid:
                 fid.write(src)
@@ -313,19 +345,19 @@ def run_history(w, hist_index: int) -> None:
             exec(compile(src, path, "exec"), module.__dict__)  # pylint: disable=exec-used
             w.count("steps")
             hist.append(step)
-            if name in hub.creation_errors and "decorate" not in step:
+            if name in hub.creation_errors and decoration_of(step) is None:
                 # a definition the model accepts but the library rejects is C04's business; drop the step
                 hist.pop()
                 continue
             # re-observe every earlier entity
             for ent in entities:
-                if "decorate" in step and affected_by_decoration(step["decorate"], ent, class_specs):
+                if decoration_of(step) is not None and affected_by_decoration(decoration_of(step), ent, class_specs):
                     # the decorated class and its subclasses: take the new observation as their reference
                     ent.lists = introspect(getattr(module, ent.name), observed_members(ent.spec), ent.is_class)
                     ent.behaviour = behaviour(hub, module, ent, ent.battery_ids)
                     continue
                 w.count("reobservations")
-                if "decorate" in step:
+                if decoration_of(step) is not None:
                     w.count("reobservations_after_decoration")
                 has_contracts = any(v for v in (ent.lists or {}).values())
                 w.case((hist_index, step_no, ent.name) if has_contracts else None)
@@ -345,7 +377,7 @@ def run_history(w, hist_index: int) -> None:
                                     name, now_beh[i][:3], ent.name, ent.behaviour[i][3:], now_beh[i][3:]), case)
                     ent.behaviour = now_beh
             # record the new entity
-            if "decorate" in step:
+            if decoration_of(step) is not None:
                 continue
             if "func" in step:
                 ent = Entity(name, {"members": []}, False)
@@ -365,7 +397,7 @@ def run_history(w, hist_index: int) -> None:
             w.count("battery_calls", len(ent.behaviour))
             entities.append(ent)
         if hist_index % 25 == 0 and entities:
-            w.sample({"history": [s.get("name") or (s["func"]["name"] if "func" in s else "decorate " + s["decorate"]["cls"]) for s in hist],
+            w.sample({"history": [s.get("name") or (s["func"]["name"] if "func" in s else "decorate " + decoration_of(s)["cls"]) for s in hist],
                       "bases": {s["name"]: s["bases"] for s in hist if "name" in s},
                       "first_entity_lists": entities[0].lists})
     finally:
@@ -398,7 +430,10 @@ def replay(case, w) -> None:
     class_specs = []  # type: List[Dict[str, Any]]
     try:
         for step_no, step in enumerate(hist):
-            if "decorate" in step:
+            if "decorate_inv" in step:
+                spec = None
+                name = "decorate_inv:" + step["decorate_inv"]["inv"]["id"]
+            elif "decorate" in step:
                 spec = None
                 name = "decorate:" + step["decorate"]["id"]
             elif "func" in step:
@@ -407,13 +442,13 @@ def replay(case, w) -> None:
             else:
                 spec = {"funcs": [], "classes": [step]}
                 name = step["name"]
-            src = prog.render(spec)[len(prog.PRELUDE):] if spec is not None else decorate_source(step["decorate"])
+            src = prog.render(spec)[len(prog.PRELUDE):] if spec is not None else step_source(step)
             path = os.path.join(scratch, "replay_{}.py".format(step_no))
             with open(path, "w") as fid:
                 fid.write(src)
             exec(compile(src, path, "exec"), module.__dict__)  # pylint: disable=exec-used
             for ent in entities:
-                if "decorate" in step and affected_by_decoration(step["decorate"], ent, class_specs):
+                if decoration_of(step) is not None and affected_by_decoration(decoration_of(step), ent, class_specs):
                     ent.lists = introspect(getattr(module, ent.name), observed_members(ent.spec), ent.is_class)
                     ent.behaviour = behaviour(hub, module, ent, ent.battery_ids)
                     continue
@@ -426,7 +461,7 @@ def replay(case, w) -> None:
                 if now_beh != ent.behaviour:
                     w.violation(classify(hist[: step_no + 1], ent, step, "behaviour"), "behaviour of {} changed after defining {}".format(ent.name, name), case)
                     ent.behaviour = now_beh
-            if "decorate" in step:
+            if decoration_of(step) is not None:
                 continue
             if "func" in step:
                 ent = Entity(name, {"members": []}, False)
